@@ -415,6 +415,7 @@ Record src := mkSrc {
 }.
 
 Record st := mkSt {
+  nw : nat;                  (* number of inputs = number of workers (constant) *)
   ws : list wpc; srcs : list src;
   merged : bool;
   ctx : bool;                (* the shared context is done *)
@@ -429,8 +430,6 @@ Record st := mkSt {
   seen : list nres;          (* results returned by the consumer's Next calls *)
   sclosed : nat              (* number of close(senderDone) executed *)
 }.
-
-Definition nw (s : st) : nat := length (ws s).
 
 Inductive sarm := ACtx | AStream | ASender | AChan | APark.
 Inductive narm := NACtx | NAChan (i : nat) | NASender | NAPark.
@@ -473,44 +472,44 @@ Definition nres_eqb (a b : nres) : bool :=
   end.
 (* ---- setters ---- *)
 Definition with_ws (s : st) (x : list wpc) : st :=
-  mkSt x (srcs s) (merged s) (ctx s) (sdone s) (serr s) (rdone s) (ndone s) (once s) (wg s)
+  mkSt (nw s) x (srcs s) (merged s) (ctx s) (sdone s) (serr s) (rdone s) (ndone s) (once s) (wg s)
        (kctxs s) (kprog s) (kgo s) (kpc_ s) (recvd s) (winners s) (seen s) (sclosed s).
 Definition with_srcs (s : st) (x : list src) : st :=
-  mkSt (ws s) x (merged s) (ctx s) (sdone s) (serr s) (rdone s) (ndone s) (once s) (wg s)
+  mkSt (nw s) (ws s) x (merged s) (ctx s) (sdone s) (serr s) (rdone s) (ndone s) (once s) (wg s)
        (kctxs s) (kprog s) (kgo s) (kpc_ s) (recvd s) (winners s) (seen s) (sclosed s).
 Definition with_merged (s : st) (wgv : nat) : st :=
-  mkSt (ws s) (srcs s) true (ctx s) (sdone s) (serr s) (rdone s) (ndone s) (once s) wgv
+  mkSt (nw s) (ws s) (srcs s) true (ctx s) (sdone s) (serr s) (rdone s) (ndone s) (once s) wgv
        (kctxs s) (kprog s) (kgo s) (kpc_ s) (recvd s) (winners s) (seen s) (sclosed s).
 Definition with_ctx (s : st) : st :=
-  mkSt (ws s) (srcs s) (merged s) true (sdone s) (serr s) (rdone s) (ndone s) (once s) (wg s)
+  mkSt (nw s) (ws s) (srcs s) (merged s) true (sdone s) (serr s) (rdone s) (ndone s) (once s) (wg s)
        (kctxs s) (kprog s) (kgo s) (kpc_ s) (recvd s) (winners s) (seen s) (sclosed s).
 Definition with_sender_closed (s : st) (e : option err) : st :=
-  mkSt (ws s) (srcs s) (merged s) (ctx s) true e (rdone s) (ndone s) (once s) (wg s)
+  mkSt (nw s) (ws s) (srcs s) (merged s) (ctx s) true e (rdone s) (ndone s) (once s) (wg s)
        (kctxs s) (kprog s) (kgo s) (kpc_ s) (recvd s) (winners s) (seen s) (S (sclosed s)).
 Definition with_rdone (s : st) : st :=
-  mkSt (ws s) (srcs s) (merged s) (ctx s) (sdone s) (serr s) true (ndone s) (once s) (wg s)
+  mkSt (nw s) (ws s) (srcs s) (merged s) (ctx s) (sdone s) (serr s) true (ndone s) (once s) (wg s)
        (kctxs s) (kprog s) (kgo s) (kpc_ s) (recvd s) (winners s) (seen s) (sclosed s).
 Definition with_ndone (s : st) (x : nat) : st :=
-  mkSt (ws s) (srcs s) (merged s) (ctx s) (sdone s) (serr s) (rdone s) x (once s) (wg s)
+  mkSt (nw s) (ws s) (srcs s) (merged s) (ctx s) (sdone s) (serr s) (rdone s) x (once s) (wg s)
        (kctxs s) (kprog s) (kgo s) (kpc_ s) (recvd s) (winners s) (seen s) (sclosed s).
 Definition with_once (s : st) (w : nat * err) : st :=
-  mkSt (ws s) (srcs s) (merged s) (ctx s) (sdone s) (serr s) (rdone s) (ndone s) true (wg s)
+  mkSt (nw s) (ws s) (srcs s) (merged s) (ctx s) (sdone s) (serr s) (rdone s) (ndone s) true (wg s)
        (kctxs s) (kprog s) (kgo s) (kpc_ s) (recvd s) (winners s ++ [w]) (seen s) (sclosed s).
 Definition with_wg (s : st) (x : nat) : st :=
-  mkSt (ws s) (srcs s) (merged s) (ctx s) (sdone s) (serr s) (rdone s) (ndone s) (once s) x
+  mkSt (nw s) (ws s) (srcs s) (merged s) (ctx s) (sdone s) (serr s) (rdone s) (ndone s) (once s) x
        (kctxs s) (kprog s) (kgo s) (kpc_ s) (recvd s) (winners s) (seen s) (sclosed s).
 Definition with_kctxs (s : st) (x : list cstate) : st :=
-  mkSt (ws s) (srcs s) (merged s) (ctx s) (sdone s) (serr s) (rdone s) (ndone s) (once s) (wg s)
+  mkSt (nw s) (ws s) (srcs s) (merged s) (ctx s) (sdone s) (serr s) (rdone s) (ndone s) (once s) (wg s)
        x (kprog s) (kgo s) (kpc_ s) (recvd s) (winners s) (seen s) (sclosed s).
 Definition with_k (s : st) (prog : list kcmd) (g : nat) (p : kpc) : st :=
-  mkSt (ws s) (srcs s) (merged s) (ctx s) (sdone s) (serr s) (rdone s) (ndone s) (once s) (wg s)
+  mkSt (nw s) (ws s) (srcs s) (merged s) (ctx s) (sdone s) (serr s) (rdone s) (ndone s) (once s) (wg s)
        (kctxs s) prog g p (recvd s) (winners s) (seen s) (sclosed s).
 Definition with_kpc (s : st) (p : kpc) : st := with_k s (kprog s) (kgo s) p.
 Definition with_recvd (s : st) (x : nat * Z) : st :=
-  mkSt (ws s) (srcs s) (merged s) (ctx s) (sdone s) (serr s) (rdone s) (ndone s) (once s) (wg s)
+  mkSt (nw s) (ws s) (srcs s) (merged s) (ctx s) (sdone s) (serr s) (rdone s) (ndone s) (once s) (wg s)
        (kctxs s) (kprog s) (kgo s) (kpc_ s) (recvd s ++ [x]) (winners s) (seen s) (sclosed s).
 Definition with_seen (s : st) (r : nres) : st :=
-  mkSt (ws s) (srcs s) (merged s) (ctx s) (sdone s) (serr s) (rdone s) (ndone s) (once s) (wg s)
+  mkSt (nw s) (ws s) (srcs s) (merged s) (ctx s) (sdone s) (serr s) (rdone s) (ndone s) (once s) (wg s)
        (kctxs s) (kprog s) (kgo s) (kpc_ s) (recvd s) (winners s) (seen s ++ [r]) (sclosed s).
 
 Definition setw (s : st) (i : nat) (p : wpc) : st := with_ws s (upd (ws s) i p).
@@ -843,7 +842,7 @@ Definition st_eqb (a b : st) : bool :=
 
 (* scenario: one (items, final) script per input, the consumer's program, number of consumer contexts *)
 Definition init (scripts : list (list Z * option Z)) (prog : list kcmd) (nctx : nat) : st :=
-  mkSt (map (fun _ => WIdle) scripts)
+  mkSt (length scripts) (map (fun _ => WIdle) scripts)
        (map (fun p => mkSrc (fst p) (snd p) 0 [] 0) scripts)
        false false false None false 0 false 0
        (repeat CLive nctx) prog 0 KIdle [] [] [] 0.
